@@ -12,7 +12,10 @@ log = logging.getLogger('supp.assistant')
 
 
 def list_packages(project, root, filename):
-    root = project.norm_package(root, filename)
+    try:
+        root = project.norm_package(root, filename)
+    except ImportError:
+        return []  # a relative name above the top-level package
     return sorted(r for r in project.list_packages(root))
 
 
